@@ -9,7 +9,8 @@ from props.parts import _tracksv2_gen as G
 NS = "EngineModel.Properties.C11V2Tracks."
 LEAN_MODULES = ["Properties.C11V2Tracks"]
 THEOREMS = [NS + t for t in [
-    "C11V2T_reachable_wf", "C11V2T_reachable_rows", "C11V2T_step_preserves", "C11V2T_failed_call_unchanged",
+    "C11V2T_reachable_wf", "C11V2T_reachable_rows", "C11V2T_step_preserves", "C11V2T_from_any_wellformed",
+    "C11V2T_failed_call_unchanged",
     "C11V2T_setter_atomic", "C11V2T_unscoped_counterexample", "C11V2T_spec_meaning"]]
 ASSUMPTIONS = [
     "2.x tracks (C11): SqliteSemantics for the Track table — a failing statement has no effect (ON CONFLICT ABORT), "
